@@ -616,7 +616,7 @@ impl<'a> Hist<'a> {
                     lean_check(d, &mut w, &mut vd, "format", None);
                     if cfg.fs.is_cpm() { super::fs_cpm::after_step(d, &mut w, &mut vd, "format"); }
                     if use_pas { pas_tie(d, &mut w, &mut vd, &format!("format {} {} {} ok", hxs("VERIF"), 0xee, hx(&pas_date())), None, "format"); pas_queries(d, &mut w, &mut vd, "format"); }
-                    if use_dos { dos_tie(d, &mut w, &mut vd, &format!("init {} 254 ok", if cfg.fs == Fs::Dos32 { 13 } else { 16 }), None, "format"); }
+                    if use_dos { super::fs_dos::send_variant(d); super::fs_dos::variant_tie(&w, &mut vd); dos_tie(d, &mut w, &mut vd, &format!("init {} 254 ok", if cfg.fs == Fs::Dos32 { 13 } else { 16 }), None, "format"); }
                 }
             }
         }
